@@ -760,8 +760,9 @@ func concStoreCase(c *Ctx, idx int, seqSeed uint64, rewriter string, nSigns int)
 	c.Stats.Distribution["store:concurrent:"+rewriter+":xsign-calls"] += signs
 	c.Stats.Distribution["store:concurrent:"+rewriter+":rewrites"] += rewrites
 	if rewriter == "ResetPassword||UpdateKeyAlias" {
-		// two writers of one key file: reported under its own class (ResetPassword does not take the
-		// HSM lock that UpdateKeyAlias and XSign take; it writes back the alias it read earlier)
+		// two writers of one key file: reported under its own class.  Regression test of the repair
+		// e8f4d605: in the pinned tree ResetPassword did not take the HSM lock that UpdateKeyAlias and
+		// XSign take and wrote back the alias it had read earlier (coq/C28/History.v)
 		scen["renames"] = renames
 		c.Stats.Distribution["store:concurrent:"+rewriter+":renames"] += renames
 		if fails > 0 || differs > 0 || otherFails > 0 || rewriteErrs > 0 || renameErrs > 0 {
